@@ -105,6 +105,25 @@ def fam_events(rng, n, thorough=False):
             steps.append({"op": "quiesce"})
         out.append({"name": "events/%d" % i, "conf": c,
                     "endpoints": [{"kind": "custom", "err_with_data": ewd[e]} for e in range(k)], "steps": steps})
+    # nothing but rejected input for longer than the idle timeout (the transport is busy all the time), then valid frames:
+    # parse errors only, the channel stays, every valid frame is delivered
+    for kind in ["custom", "tcp_server", "udp_server"]:
+        t = Tags(900000 + 1000 * len(out))
+        steps = []
+        peer = 0 if kind == "custom" else 1
+        if kind == "custom":
+            steps += opens(1) + [feed(0, "valid", t.next())]
+        else:
+            steps += [{"op": "peer_connect", "ep": 0, "peer": 1}, feed(0, "valid", t.next(), peer=1), {"op": "wait_open", "ep": 0, "n": 1}]
+        for j in range(16):
+            steps.append(feed(0, ["junk", "badck"][j % 2], t.next(), peer=peer))
+            steps.append({"op": "sleep", "ms": 50})
+        for j in range(5):
+            steps.append(feed(0, "valid", t.next(), peer=peer))
+            steps.append({"op": "sleep", "ms": 5})
+        steps.append({"op": "quiesce", "ms": 300})
+        out.append({"name": "events/noise_longer_than_idle_timeout_%s" % kind, "conf": conf(idle_ms=300, idle_active=[[0, 1]]),
+                    "endpoints": [{"kind": kind}], "steps": steps})
     return out
 
 
@@ -725,6 +744,23 @@ def fam_links(rng, thorough=False):
                 steps.append(write(1, "MsgAll", t.next(), bad="id_outside"))
         steps += [{"op": "wait_writes"}, {"op": "quiesce", "ms": 1500}]
         out.append({"name": "links/v%d_%s" % (ver, "keyed" if keyed else "plain"), "conf": c, "endpoints": customs(3), "steps": steps})
+    # a serial port (and a custom transport) whose write stalls for longer than the write timeout and then completes, with
+    # more writes queued behind it: every frame still goes out once, whole, with gapless sequence numbers
+    for kind in ["serial", "custom"]:
+        t = Tags(118000 + (500 if kind == "custom" else 0))
+        steps = [{"op": "wait_open", "ep": 0, "n": 1}, write(1, "MsgAll", t.next(), sync=True), write(1, "MsgAll", t.next(), sync=True),
+                 {"op": "sleep", "ms": 20}, {"op": "twrite_mode", "ep": 0, "mode": "block"}]
+        for j in range(3):
+            steps.append(write(1, "MsgAll", t.next()))
+        steps += [{"op": "sleep", "ms": 700}]
+        for j in range(3):
+            steps.append(write(1, "MsgAll", t.next()))
+        steps += [{"op": "sleep", "ms": 100}, {"op": "twrite_mode", "ep": 0, "mode": "ok"}, {"op": "wait_writes"}]
+        for j in range(3):
+            steps.append(write(1, "MsgAll", t.next(), sync=True))
+        steps.append({"op": "quiesce", "ms": 800})
+        out.append({"name": "links/%s_write_stalls_longer_than_write_timeout" % kind, "conf": conf(write_ms=200, reconnect_ms=100),
+                    "endpoints": [{"kind": kind}], "steps": steps})
     # configurations refused / accepted at initialization
     for ver in [0, 1, 2]:
         for sys in [0, 1, 255]:
